@@ -561,7 +561,7 @@ def run_c08(ctx, ck):
     IGNORED_KEYS.update({"bashsyntax", "batchsyntax"})
     run_dqwords(ctx, ck, 3000 if ctx.tier == "quick" else 40000)
     s = ck.run_stream(ctx, "opaque", 2200 if ctx.tier == "quick" else 0)
-    compare(ctx, s, "opacity sweep: (character class x position) x 12 data paths x 4 origins, script bytes (model) and Bash run (expectation, reference semantics)",
+    compare(ctx, s, "opacity sweep: (character class x position) x 13 data paths x 4 origins, script bytes (model) and Bash run (expectation, reference semantics)",
             sig_c08, describe_orun, lambda k, s: k[0] == "orun", oracle=orun_oracle)
     ctx.cov["distribution"] = s["meta"]
     ctx.cov["exhaustive"] = ctx.tier != "quick"
